@@ -432,6 +432,13 @@ func (l *Lab) CheckSessionTime(t time.Time) {
 	l.drain()
 }
 
+// Step runs an arbitrary action against the session as one step of the trace (public API calls).
+func (l *Lab) Step(desc string, f func()) {
+	l.begin(desc)
+	f()
+	l.drain()
+}
+
 // CheckResetTime evaluates the ResetSeqTime rule at t (the run loop does this once a second).
 func (l *Lab) CheckResetTime(t time.Time) {
 	l.begin("check reset time " + t.Format(time.RFC3339))
